@@ -54,6 +54,8 @@ def driver_universe(ex, ck, aborts=False, budget=None):
                     ex.one(strategy, cfg, tc, content(tc) if file0 is None else file0, vv,
                            exc_class=exc, **kw2)
 
+    others = ["minimize-around", "minimize-balanced", "minimize-collapse-brace",
+              "replace-properties-by-globals", "replace-arguments-by-globals"]
     # 1. minimize (concrete model), every layout, option grid
     for wrap in wraps:
         for tc in small_layouts(n_small, wrap=wrap):
@@ -76,9 +78,15 @@ def driver_universe(ex, ck, aborts=False, budget=None):
                 continue
             explore("minimize", {}, None, file0=data, atom=atom, load=True, stream="loaded-" + atom,
                     max_runs=12 if quick else 120)
+            # every other strategy on the loaded file too (strategy x atom type x markers), a few verdict sequences each
+            if i in (0, 4, 7) or not quick:
+                for strategy in others[:3]:
+                    explore(strategy, {}, None, file0=data, atom=atom, load=True, stream="loaded-" + atom,
+                            replay=False, max_runs=4 if quick else 40)
+                for strategy in others[3:]:
+                    explore(strategy, {}, None, file0=data, atom=atom, load=True, stream="loaded-" + atom,
+                            replay=strategy != "replace-properties-by-globals", max_runs=3 if quick else 30, cap=200)
     # 2. the other strategies drive the model DRIVER through their recorded proposals
-    others = ["minimize-around", "minimize-balanced", "minimize-collapse-brace",
-              "replace-properties-by-globals", "replace-arguments-by-globals"]
     brace_alpha = (b"{\n", b"}\n", b"x\n", b"(\n")
     for strategy in others[:2]:
         for tc in small_layouts(n_small + 1, alphabet=brace_alpha[:3], with_nonred=False):
